@@ -50,13 +50,14 @@ def stepSt (d : Defects) (tcp : Bool) (σ : St) : List String → Option St
     | .haveSession c =>
       (match kind with
        | "ping-ok" => some (act d σ [.pingOk])
+       | "ping-die" => some (act d σ [.pingOk, .peerClose c])   -- the peer hangs up between the successful Ping and addNewMux
        | "silent" => some (act d σ [.pingErr .writeTimeout, .peerClose c])
        | "mute" => some (act d σ [.pingErr .other, .peerClose c])
        | "slow" => some (act d σ [.pingErr .writeTimeout])
        | "eof" => some (act d σ [.peerClose c, .pingErr .eof])
        | "garbage" => some (act d σ [.peerClose c, .pingErr .other])
        | _ => none)
-    | _ => if ["ping-ok", "silent", "mute", "slow", "eof", "garbage"].contains kind then some σ else none
+    | _ => if ["ping-ok", "ping-die", "silent", "mute", "slow", "eof", "garbage"].contains kind then some σ else none
   | ["die", k, kind] =>
     match k.toNat? with
     | none => none
